@@ -9,6 +9,7 @@ A case is {"salt", "chain": [ntx per stored header], "height", "index", "via", "
 Transactions are real serialised transactions (1-2 P2PKH inputs, 1-3 P2PKH outputs) derived from
 (salt, height, index) with SHA256, so every block of a chain has a distinct root.
 """
+import asyncio
 import functools
 import hashlib
 import struct
@@ -29,7 +30,12 @@ RULE = ("part enum: for EVERY block size 1..64 and EVERY transaction index: the 
         "(biased to first/last), one mutation out of 24 kinds (branch bitflip/swap/replace, side bit, high bit, other "
         "index, shorten, lengthen, tx byte, other tx, other stored height, height >= len(headers), height <= 0, reply "
         "without merkle, malformed elements, inconsistent block_height field) or none. non-trivial = a mutation, or a "
-        "genuine proof whose path crosses an odd-width level (duplicated last node). distinct = distinct canonical JSON.")
+        "genuine proof whose path crosses an odd-width level (duplicated last node). distinct = distinct canonical JSON." "resync: real Ledger + Database + account; T pays a wallet address and is synced through update_history while in block h (or the "
+        "mempool); the chain is then reorganised from h-0..3 so that T sits in a later / earlier / same-height block of the new "
+        "branch, is back in the mempool, or nothing moves; the server announces the new status (with the genuine or, sometimes, the "
+        "stale proof) and the address is synced again, once or twice; oracle on the tx row of the wallet database: is_verified only "
+        "at a height whose stored header commits to T, and verified at the new height whenever the genuine proof was supplied; "
+        "non-trivial = T moved.")
 ASSUMPTIONS = [
     "reference Merkle tree per Bitcoin developer reference (pairwise dSHA256, last node duplicated on odd rows); proof "
     "wire form per Electrum protocol blockchain.transaction.get_merkle (hex, display byte order, pos = index)",
@@ -753,6 +759,212 @@ def run_history(case):
     return out
 
 
+# ---- part "resync": the address-history sync records a transaction again after its block changed -------------------------
+
+MOVES = ("later", "later", "same_height_new_block", "earlier", "to_mempool", "none", "from_mempool")
+
+
+@st.composite
+def resync_case(draw, tier="quick"):
+    n = draw(st.integers(4, 9))
+    return {"salt": draw(st.integers(0, 2 ** 32)), "n": n, "h": draw(st.integers(1, n - 2)), "i": draw(st.integers(0, 7)),
+            "sizes": [draw(st.sampled_from([1, 2, 3, 4, 5, 7, 8])) for _ in range(4)],
+            "move": draw(st.sampled_from(MOVES)), "from_delta": draw(st.integers(0, 3)), "h2_delta": draw(st.integers(1, 3)),
+            "extra": draw(st.integers(0, 3)), "amount": draw(st.integers(1, 10 ** 9)),
+            "second_proof": draw(st.sampled_from(["genuine", "genuine", "genuine", "old_block"])),
+            "repeat": draw(st.booleans())}
+
+
+_RESYNC_ENV = {}
+
+
+def run_resync(case):
+    """real Ledger / Database / Account: transaction T paying a wallet address is synced through update_history while confirmed in
+    block h (genuine proof), the chain is reorganised from at or below h so that T sits in another block (later / earlier /
+    same height / back in the mempool), the server announces the new status and the address is synced again.  Whatever the
+    wallet then records for T: verified only at a height whose stored header commits to T."""
+    import lbry.wallet  # noqa: F401
+    from lbry.wallet import Transaction, Input, Output
+    from lbry.wallet.header import UnvalidatedHeaders
+    from vlib.wallet_harness import WalletEnv
+
+    class LinkedOnly(UnvalidatedHeaders):
+        genesis_hash = None
+        checkpoints = {}
+
+    out = Out()
+    loop = aio.get_loop()
+    env = _RESYNC_ENV.get(id(loop))
+    if env is None:
+        env = _RESYNC_ENV[id(loop)] = aio.run(WalletEnv().open(n_accounts=1, receiving_gap=2, change_gap=1))
+    else:
+        aio.run(env.reset())
+    ledger = env.ledger
+    ledger._known_addresses_out_of_sync.clear()
+    headers = LinkedOnly(":memory:")
+    aio.run(headers.open())
+    ledger.headers = headers
+    salt, sizes, n, h = case["salt"], case["sizes"], case["n"], case["h"]
+    address, h160 = env.addr[(0, 0, 0)]
+    tx = Transaction().add_inputs([Input.spend(env.external_txo(case["amount"] + 5000, "c08-%d" % salt))]) \
+        .add_outputs([Output.pay_pubkey_hash(case["amount"], h160)])
+    raw_t, txid = tx.raw, tx.id
+    leaf_t = M.dsha256(raw_t)
+    assert M.to_wire(leaf_t) == txid
+
+    def leaves_of(k, v, with_t):
+        _, leaves, _ = block((salt, v), k, sizes[k % len(sizes)])
+        leaves = list(leaves)
+        if with_t:
+            leaves[case["i"] % len(leaves)] = leaf_t
+        return leaves
+
+    def build(prev, heights, v, t_height):
+        res = b""
+        for k in heights:
+            hb = linked_header(prev, salt, k, v, M.merkle_root(leaves_of(k, v, k == t_height)))
+            res += hb
+            prev = M.dsha256(hb)
+        return res
+
+    def proof(k, v):
+        lv = leaves_of(k, v, True)
+        idx = case["i"] % len(lv)
+        return {"merkle": [M.to_wire(b) for b in M.merkle_branch(lv, idx)], "pos": idx, "block_height": k}
+
+    state = {"height": None, "proof": None}
+
+    class Net:
+        is_connected = True
+        client = None
+
+        def retriable_call(self, function, *args, **kwargs):
+            return function(*args, **kwargs)
+
+        async def get_history(self, addr):
+            return [{"tx_hash": txid, "height": state["height"]}] if addr == address else []
+
+        async def get_transaction_batch(self, txids, restricted=True):
+            return {t: (raw_t.hex(), dict(state["proof"]) if state["proof"] else {"block_height": state["height"]}) for t in txids}
+
+        async def get_merkle(self, t, height):
+            return dict(state["proof"]) if state["proof"] else {"block_height": height}
+
+        async def subscribe_address(self, a, *more):
+            return [None for _ in (a,) + more]
+    ledger.network = Net()
+
+    def status():
+        return hashlib.sha256(("%s:%d:" % (txid, state["height"])).encode()).hexdigest()
+
+    def recorded():
+        rows = aio.run(ledger.db.db.execute_fetchall("select height, is_verified from tx where txid = ?", (txid,)))
+        return (rows[0]["height"], bool(rows[0]["is_verified"])) if rows else None
+
+    def sync(tag):
+        async def go():
+            await ledger.update_history(address, status())
+            for _ in range(50):      # addresses generated to keep the gap are subscribed in the ledger's background tasks
+                if len(ledger._update_tasks) == 0:
+                    break
+                await ledger._update_tasks.done.wait()
+                await asyncio.sleep(0)
+        try:
+            aio.run(go())
+        except Exception as e:
+            import traceback
+            inner = [f for f in traceback.extract_tb(e.__traceback__) if "/lbry/" in f.filename]
+            out.violate("resync:update_history-raises:%s:%s" % (type(e).__name__, tag), "%r at %s" % (e, inner[-1].name if inner else "?"))
+            return False
+        return True
+
+    move = case["move"]
+    out.label("resync:" + move)
+    # stage 1: chain of n blocks, T in block h (or still in the mempool)
+    first_conf = move != "from_mempool"
+    chain1 = build(bytes(32), range(n), 0, h if first_conf else None)
+    if aio.run(headers.connect(0, chain1)) != n:
+        raise RuntimeError("harness: initial chain not connected")
+    state["height"], state["proof"] = (h, proof(h, 0)) if first_conf else (0, None)
+    if not sync("first"):
+        return out
+    rec = recorded()
+    if first_conf:
+        out.check(rec == (h, True), "resync:genuine-proof-not-recorded-verified:first-sync", "recorded %r, T is in block %d" % (rec, h))
+    else:
+        out.check(rec is not None and not rec[1], "resync:mempool-transaction-recorded-verified", "recorded %r" % (rec,))
+    if out.violations:
+        return out
+    # stage 2: the chain changes
+    if move == "none":
+        h2, t_header_height, v2 = h, h, 0
+    elif move == "from_mempool":
+        h2, t_header_height, v2 = h, None, 0        # T gets mined into a NEW block h on a new branch from h
+        from_h = max(1, h - case["from_delta"])
+        new_len = max(n - from_h, h - from_h + 1) + case["extra"]
+        prev = M.dsha256(chain1[(from_h - 1) * HEADER_SIZE: from_h * HEADER_SIZE])
+        branch = build(prev, range(from_h, from_h + new_len), 1, h)
+        if aio.run(headers.connect(from_h, branch)) != new_len:
+            raise RuntimeError("harness: branch not connected")
+        v2 = 1
+    else:
+        from_h = max(1, h - case["from_delta"])
+        if move == "later":
+            h2 = h + case["h2_delta"]
+        elif move == "earlier":
+            h2 = max(from_h, h - case["h2_delta"])
+            if h2 == h:
+                move = "same_height_new_block"
+        elif move == "same_height_new_block":
+            h2 = h
+        else:
+            h2 = None            # back in the mempool: no block of the new branch has it
+        new_len = max(n - from_h, (h2 if h2 is not None else h) - from_h + 1) + case["extra"]
+        prev = M.dsha256(chain1[(from_h - 1) * HEADER_SIZE: from_h * HEADER_SIZE])
+        branch = build(prev, range(from_h, from_h + new_len), 1, h2)
+        if aio.run(headers.connect(from_h, branch)) != new_len:
+            raise RuntimeError("harness: branch not connected")
+        v2 = 1
+    stored = bytes(headers.io.getbuffer())
+
+    def commits(height):
+        """does the header now stored at `height` commit to T (reference reading of the stored bytes)?"""
+        if height is None or not 0 < height < len(stored) // HEADER_SIZE:
+            return False
+        root = stored[height * HEADER_SIZE + 36: height * HEADER_SIZE + 68]
+        for v in (0, 1):
+            lv = leaves_of(height, v, True)
+            if M.merkle_root(lv) == root:
+                return True
+        return False
+    if h2 is None:
+        state["height"], state["proof"] = 0, None
+    else:
+        state["height"] = h2
+        state["proof"] = proof(h2, v2)
+        if case["second_proof"] == "old_block" and move not in ("none", "from_mempool"):
+            state["proof"] = dict(proof(h, 0), block_height=h2)     # the server (or a stale cache) still hands out the old proof
+            out.label("resync:stale-proof")
+    out.nontrivial = move not in ("none",)
+    for rnd in range(2 if case["repeat"] else 1):
+        if not sync("second"):
+            return out
+        rec = recorded()
+        if rec is None:
+            out.violate("resync:transaction-lost", move)
+            return out
+        height, verified = rec
+        if verified and not commits(height):
+            out.violate("resync:recorded-verified-at-height-whose-header-does-not-commit:" + move,
+                        "T recorded verified at %d; server has it at %r; first synced at %r" % (height, h2, h if first_conf else None))
+        if h2 is not None and state["proof"] == proof(h2, v2) and not (verified and height == h2):
+            out.violate("resync:genuine-proof-not-recorded-verified:" + move, "recorded %r, T is in block %d (was %r)" % (
+                rec, h2, h if first_conf else None))
+        if out.violations:
+            break
+    return out
+
+
 def selftest():
     M.selftest()
     # the raw transactions really are transactions with the reference id
@@ -768,6 +980,8 @@ PARTS = [
     Part("history", history_case, run_history, 400, 6000, quick_shards=4, thorough_shards=16,
          essential=("has_reorg", "reverify_same_object", "proof:old_block", "proof:genuine", "reorg_len_>1", "reorg_via_ledger",
                     "verify_via_cached", "batch_race")),
+    Part("resync", resync_case, run_resync, 150, 2000, quick_shards=2, thorough_shards=8,
+         essential=tuple("resync:" + m for m in sorted(set(MOVES))) + ("resync:stale-proof",)),
     Part("gen", gen_case, run_case, 1500, 30000, quick_shards=4, thorough_shards=16,
          essential=tuple(MUTATIONS) + ("none", "via_arg", "via_network", "odd_level_on_path", "side_neutral",
                                        "side_neutral_dup", "height_out_of_bounds", "hex_case_neutral")),
